@@ -185,8 +185,14 @@ class RomFSReader(TypeReaderBase, FS):
         if lv3.filedata_offset < lv3.filemeta.offset + lv3.filemeta.size:
             raise InvalidRomFSHeaderError('File Data offset is before the end of the File Metadata region')
 
+        # every entry may be linked only once, otherwise sibling/child links could form a cycle
+        seen_dir_offsets = {0}
+        seen_file_offsets = set()
+
         # get entries from dirmeta and filemeta
         def iterate_dir(out: dict, raw: bytes, current_path: str, dirmeta: 'BinaryIO', filemeta: 'BinaryIO'):
+            if len(raw) != 0x18:
+                raise RomFSEntryError('Root directory entry is outside the metadata table')
             first_child_dir = readle(raw[0x8:0xC])
             first_file = readle(raw[0xC:0x10])
 
@@ -197,7 +203,13 @@ class RomFSReader(TypeReaderBase, FS):
             if first_child_dir != 0xFFFFFFFF:
                 dirmeta.seek(first_child_dir)
                 while True:
+                    entry_offset = dirmeta.tell()
+                    if entry_offset in seen_dir_offsets:
+                        raise RomFSEntryError(f'Directory entry at {entry_offset:#x} is linked more than once')
+                    seen_dir_offsets.add(entry_offset)
                     child_dir_meta = dirmeta.read(0x18)
+                    if len(child_dir_meta) != 0x18:
+                        raise RomFSEntryError(f'Directory entry at {entry_offset:#x} is outside the metadata table')
                     next_sibling_dir = readle(child_dir_meta[0x4:0x8])
                     child_dir_name = dirmeta.read(readle(child_dir_meta[0x14:0x18])).decode('utf-16le')
                     child_dir_name_meta = child_dir_name.lower() if case_insensitive else child_dir_name
@@ -214,7 +226,13 @@ class RomFSReader(TypeReaderBase, FS):
             if first_file != 0xFFFFFFFF:
                 filemeta.seek(first_file)
                 while True:
+                    entry_offset = filemeta.tell()
+                    if entry_offset in seen_file_offsets:
+                        raise RomFSEntryError(f'File entry at {entry_offset:#x} is linked more than once')
+                    seen_file_offsets.add(entry_offset)
                     child_file_meta = filemeta.read(0x20)
+                    if len(child_file_meta) != 0x20:
+                        raise RomFSEntryError(f'File entry at {entry_offset:#x} is outside the metadata table')
                     next_sibling_file = readle(child_file_meta[0x4:0x8])
                     child_file_offset = readle(child_file_meta[0x8:0x10])
                     child_file_size = readle(child_file_meta[0x10:0x18])
